@@ -85,6 +85,7 @@ def run(P, rep, tier):
     guarded('R10.7', r107, P, u, rep)
     guarded('R10.8', r108, P, u, T, rep, dres)
     guarded('R10.6', r106, P, rep)
+    guarded('R10.9', r109_macro_table_order, P, rep)
 
 
 # ------------------------------------------------------------------------------------------------ R10.1
@@ -2248,3 +2249,61 @@ def _r106_order(P, mu, rep):
     norm = [(a if a != 'define_macro' else 'define', b) for a, b in seqs[0]]
     rep.ob('R10.6', 'main.c:parse_args:D-U-in-argv-order', norm == want,
            '`-DX -UX -D X=2 -U Y` is applied as %r: definitions and undefinitions must act in command-line order' % (seqs[0],), where='main.c:%d' % mu.fn('parse_args').line)
+
+
+# ------------------------------------------------------------------------------------------------ R10.9
+def r109_macro_table_order(P, rep):
+    """which text a conditional selects depends on the macro table a translation unit starts with: the predefined macros, then the -D / -U
+    options in command-line order on top of them (so that -U removes and -D redefines a predefined macro), then the source. Decided on
+    main(): among its unconditional top-level calls, the one that reaches the installation of the predefined macros comes before the one
+    that reaches the option handlers writing the macro table. Writers are found through the call graph, not by name."""
+    from .. import lib_c14 as L
+    rep.rule('R10.9', 'the macro table is initialised in the order predefined macros -> command-line -D/-U -> source text: in main() the call installing the predefined macros precedes, unconditionally, the call that applies the options', floor=1)
+    mu = P.unit('main.c')
+    pu = P.unit('preprocess.c')
+    if 'main' not in mu.functions:
+        raise AnalysisBroken('main.c: main vanished')
+    cg = L.CallGraph(P)
+    # direct writers of the macro table
+    writers = set()
+    for un in P.unit_names:
+        u = P.unit(un)
+        for fname, fd in u.functions.items():
+            for c in fd.calls():
+                if c.callee() in ('hashmap_put', 'hashmap_put2', 'hashmap_delete', 'hashmap_delete2') and c.args() and c.args()[0].src() == '&macros':
+                    writers.add(fname)
+    if not writers:
+        rep.undecided('R10.9', 'main.c:main:macro-table-order', 'no writer of the macro table found'); return
+
+    def reaches_writer(f):
+        return f in writers or bool(cg.reach(f) & writers)
+    # the predefined-macro installer: reaches a writer and contains the spelling of a macro the standard requires to be predefined
+    def is_predef(f):
+        for u, fd in cg.defs.get(f, []):
+            for n in fd.walk():
+                if n.kind == 'StringLiteral' and n.str_value() in ('__STDC__', '__STDC_VERSION__'):
+                    return True
+        return False
+    predef = {f for f in cg.defs if reaches_writer(f) and (is_predef(f) or any(is_predef(g) for g in cg.reach(f) if g in cg.defs))}
+    predef.discard('main')
+    body = mu.body('main')
+    where = 'main.c:%d' % mu.fn('main').line
+    seq = []          # (role, name, unconditional)
+    for st in body.inner:
+        uncond = st.kind in ('CallExpr',) or (st.kind not in ('IfStmt', 'ForStmt', 'WhileStmt', 'DoStmt', 'SwitchStmt'))
+        for c in ([st] if st.kind == 'CallExpr' else list(st.find('CallExpr'))):
+            name = c.callee()
+            if not name or name not in cg.defs:
+                continue
+            if name in predef:
+                seq.append(('predefined', name, uncond))
+            elif reaches_writer(name) and any(p.type and 'char **' in (p.type or '') for p in (cg.defs[name][0][0].params(name) or [])):
+                seq.append(('options', name, uncond))
+    roles = [r for r, _, _ in seq]
+    if 'predefined' not in roles or 'options' not in roles:
+        rep.undecided('R10.9', 'main.c:main:macro-table-order', 'could not recognise both the predefined-macro installation and the option handling among the calls of main (%r)' % (seq,), where=where); return
+    ip, io = roles.index('predefined'), roles.index('options')
+    ok = ip < io and seq[ip][2]
+    rep.ob('R10.9', 'main.c:main:predefined-macros-before-options', ok,
+           'main() applies the command-line options (%s) %s the predefined macros are installed (%s)%s: -U of a predefined macro is undone and -D of one is overwritten, so #if/#ifdef on it select the wrong group'
+           % (seq[io][1], 'before' if ip > io else 'while', seq[ip][1], '' if seq[ip][2] else ' only conditionally'), where=where)
